@@ -2,6 +2,7 @@ import HC.Proofs.Verify
 import HC.Proofs.Complete
 import HC.Proofs.UpgradeComplete
 import HC.Proofs.Sync
+import HC.Proofs.Replica
 /-!
 # C03 — any honest proof is accepted and replicas converge to the writer's data
 
@@ -39,9 +40,21 @@ Proved so far:
   reachable state the exchange for every block of the log succeeds again (answer, acceptance, commit).  So an
   honest exchange never gets stuck, for every log, every order of requests and every length of the exchange.
 
+* **`replica_converges`** (unbounded, **core level**): the whole of `verify_and_apply_proof` — verification, the byte
+  offset of the block under the replica's own sparse tree, data write, oplog entry, bitfield, tree commit, periodic
+  flush of bitfield pages and tree nodes.  From a replica that knows nothing: the writer's upgrade answer is applied
+  (`true`), then for **every list of block indices in any order, with repetitions**, each honest block answer is
+  applied (`true`), and at the end the replica reports the writer's length and byte length, serves exactly the blocks
+  it fetched — **each byte-identical to the writer's block** — and answers "not held" for the others.  Behind it:
+  `Replica.RepR` (representation invariant of a replica: a *closed* sparse tree — every stored node inside the tree
+  has its sibling and parent stored — which is what makes `byte_offset_from_nodes` work on a sparse tree; bits = held
+  set; the data store holds the held blocks at the writer's offsets; the tree store's size is a multiple of the slot
+  size so that flushing cannot surface a half slot), `apply_first_upgrade`, `apply_block`, `get_held`.
+* `honest_block_is_writers`: the proof applied in these theorems is the one the writer's `create_valueless_proof`
+  produces for the replica's request, with the block's bytes.
+
 Partial: proofs with a hash or seek section, upgrades from a non-empty replica or to less than the writer's
-length (additional nodes), block + upgrade in one proof, and the core-level application step after verification
-(data write, oplog entry, bitfield, flushing the tree's nodes to the store) are not proved complete;
+length (additional nodes), block + upgrade in one proof, replica reopen and writer-side clears are not proved complete;
 they are validated by the correspondence run — every honest proof (all request orders, partial upgrades
 with additional nodes, seeks, hash sweeps, replica reopen, cleared blocks) must be accepted by the real
 crate and by the model, and the replica must converge.
@@ -197,5 +210,53 @@ example (C : Crypto) (hC : TreeStore.HashWF C) (seed : Bytes) (hS : LiveRefine.S
     subst ho
     have hb := TreeStore.nodeAt_not_blank C hC #[[1, 2, 3]] 0 0
     simp [Tree.node?, Flat.index, hb]
+
+/-- the proof used below is the writer's: its `create_valueless_proof` for the replica's request returns the same
+    fork and nodes, and the value is the writer's block -/
+theorem honest_block_is_writers (C : Crypto) (bs : Array Bytes) (tw : Tree) (fw : File) (hT : RefProof.RootsOK C bs tw.changeset)
+    (hN : Offsets.NodesOK C bs tw fw) (hs : bs.size < 2 ^ 64) (c : Core) (d : Disk) (held : Nat → Bool)
+    (h : Replica.RepR C bs c d held) (hf : c.tree.fork = tw.fork) (i : Nat) (hi : i < bs.size) :
+    ∃ nodes, tw.createValuelessProof fw (some ⟨i, c.tree.missingNodes d.tree (2 * i)⟩) none none none
+        = .ok ⟨tw.fork, some ⟨i, nodes⟩, none, none, none⟩
+      ∧ Replica.honestBlock C bs c d i = ⟨tw.fork, some ⟨i, bs.getD i [], nodes⟩, none, none, none⟩ := by
+  obtain ⟨_, hin⟩ := Complete.missingNodes_spec C bs bs.size c.tree d.tree h.closed.sparse hs i hi
+  refine ⟨_, Complete.create_block_proof C bs tw fw hT hN hs i _ hi hin, ?_⟩
+  simp [Replica.honestBlock, hf]
+
+/-- **C03 at core level: replicas converge to the writer's data.**  A replica that knows nothing applies the writer's
+    upgrade answer and then the writer's block answers for the indices `is` — any indices of the log, in any order,
+    repetitions allowed.  Every application answers `true`; afterwards the replica reports the writer's length and
+    byte length, every fetched block reads back byte-identical to the writer's, and every other index reads as not
+    held. -/
+theorem replica_converges (C : Crypto) (hC : TreeStore.HashWF C) (bs : Array Bytes) (c : Core) (d : Disk)
+    (h : Replica.FreshR C bs c d) (h0 : 0 < bs.size) (sig : Bytes) (hsl : sig.length = 64)
+    (hver : C.verify c.publicKey (RefTree.signableOf C bs c.tree.fork) sig = true)
+    (is : List Nat) (his : ∀ i ∈ is, i < bs.size) :
+    let st1 := c.verifyAndApply C d (Replica.honestUpgrade C bs c.tree.fork sig)
+    let s2 := Replica.fetch C bs (st1.core, d.applyAll st1.journal) is
+    st1.result = .ok true
+      ∧ Replica.fetchResults C bs (st1.core, d.applyAll st1.journal) is = is.map (fun _ => .ok true)
+      ∧ s2.1.tree.length = bs.size ∧ s2.1.tree.byteLength = LogSpec.totalBytes bs
+      ∧ (∀ j, j ∈ is → (s2.1.getBlock s2.2 j).result = .ok (some (bs.getD j [])))
+      ∧ (∀ j, j ∉ is → (s2.1.getBlock s2.2 j).result = .ok none) := by
+  intro st1 s2
+  obtain ⟨r1, r2, _, _⟩ := Replica.apply_first_upgrade C hC bs c d h h0 sig hsl hver
+  obtain ⟨r3, r4⟩ := Replica.fetch_repr C hC bs is _ _ _ r2 his
+  refine ⟨r1, r4, r3.closed.sparse.length, by rw [r3.bytes, LiveRefine.psum_total], fun j hj => ?_, fun j hj => ?_⟩
+  · exact Replica.get_held C bs _ _ _ r3 j (by simp [hj])
+  · exact Replica.get_missing C bs _ _ _ r3 j (by simp [hj])
+
+/-- non-vacuity: a core with an empty tree, an empty bitfield and hint 0 over empty stores knows nothing -/
+example (C : Crypto) (bs : Array Bytes) (hs : bs.size < 2 ^ 64 ∧ Offsets.psum bs bs.size < 2 ^ 64) (c : Core)
+    (ht : c.tree = {}) (hb : c.bitfield = {}) (hh : c.header.contiguous = 0) : Replica.FreshR C bs c {} := by
+  have hg : ∀ i, c.bitfield.get i = false := by intro i; rw [hb]; simp [Bitfield.get]
+  refine ⟨⟨by rw [ht], ?_, ?_⟩, by rw [ht], by rw [ht], ?_, rfl, hg, ?_, hs⟩
+  · intro i n h
+    rw [ht] at h
+    simp [Tree.node?, File.read, File.empty, File.size, Spec.nodeSize] at h
+  · intro p hp
+    simp [RefProof.rootsStack_zero] at hp
+  · rw [ht]; intro k n h; simp at h
+  · rw [hh]; exact ⟨(fun i hi => by cases hi), hg 0⟩
 
 end HC.C03
